@@ -101,7 +101,9 @@ pub fn main(a: Args) -> i32 {
     let pool: Vec<Vec<u8>> = vec![b"".to_vec(), b"A".to_vec(), b"BB".to_vec(), b"hello world".to_vec(), vec![0x58; 3000], (0..=255u8).collect(), vec![0x5a; 300_000]];
     // "d" as a FILE clashes with the directory of d/x, d/y, d/z'q: one tree never holds both, two clients (or a client and
     // the hub) may
-    let paths = ["a", "b", "d/x", "d/y", "e f", "d/z'q", "d"];
+    // `.copiarc` and `.copia-hooks/pre` START like the control directory `.copia` without being inside it: the hub lists
+    // and serves them like any other file
+    let paths = ["a", "b", "d/x", "d/y", "e f", "d/z'q", "d", ".copiarc", ".copia-hooks/pre"];
     let hub = format!("{}/HUB", absout);
     let mut id = 0usize;
     let mut nfail = 0u64;
